@@ -1,5 +1,5 @@
 #[cfg(kani)]
-mod verif_kani_io {
+pub(crate) mod verif_kani_io {
     //! U7 (I/O ordering, fault containment) and the DiskIO half of U3 (metadata alternation).
     //! All device syscalls are replaced by a ghost trace; one symbolic I/O call may fail.
     use super::*;
